@@ -55,23 +55,23 @@ def run_e2(res, tier):
                 continue
             tups = fam_basic.value_tuples(m)
             for t in (tups[:2] if tier == "quick" else tups[:4]):
-                docs.append((m.kind, fam_basic.doc(m, t)))
+                docs.append((m.kind, fam_basic.doc(m, t), m.kind in ("instantiate", "migrate") or model.in_shape(m.name)))
         if "reply" in have:
-            docs.extend(("reply", d) for d in REPLY_DOCS)
+            docs.extend(("reply", d, False) for d in REPLY_DOCS)
         seen = set()
-        for k1, d in docs:
+        for k1, d, ctl in docs:
             for k2 in KINDS:
                 if (k1, k2, d) in seen:
                     continue
                 seen.add((k1, k2, d))
                 for op in ("ep", "mt"):
                     cases.append({"prog": pid, "op": op, "kind": k2, "input": d, "ctx": fam_basic.CONTEXTS[2]})
-                    exp.append((pid, kind_of, k1, k2, d, op))
+                    exp.append((pid, kind_of, k1, k2, d, op, ctl))
     obs = cp.run_cases(cases)
     for case, e, o in zip(cases, exp, obs):
         if o is None:
             continue
-        pid, kind_of, k1, k2, d, op = e
+        pid, kind_of, k1, k2, d, op, ctl = e
         res.add(states=1, transitions=1, traces=1, evaluations=1)
         if o.get("absent"):
             res.outcome(("absent", k2))
@@ -91,7 +91,7 @@ def run_e2(res, tier):
             hk = kind_of.get(h)
             if hk != k2:
                 bad("handler %s (annotated %s) ran" % (h, hk), "foreign_handler")
-        if k1 == k2 and k1 != "reply" and not handlers:
+        if k1 == k2 and k1 != "reply" and not handlers and e[6]:
             bad("positive control: own-kind document ran no handler (%s)" % o.get("err"), "control")
     res.parts["e2_cases"] = len(cases)
     res.sample({"case": cases[5], "observation": obs[5]})
